@@ -585,6 +585,33 @@ impl PivotScript {
     }
 }
 
+#[derive(Clone, Debug, Serialize, Deserialize, Hash, PartialEq, Eq)]
+pub enum Pivots {
+    /// explicit choices, then always 0 (what the DFS produces)
+    Explicit(Vec<usize>),
+    Script(PivotScript),
+}
+
+impl Pivots {
+    pub fn install(&self) {
+        match self {
+            Pivots::Explicit(p) => install_explicit(p),
+            Pivots::Script(s) => s.install(),
+        }
+    }
+    pub fn uninstall() {
+        ndarray_stats::verif_hooks::set_chooser(None);
+    }
+    pub fn is_real(&self) -> bool {
+        matches!(self, Pivots::Script(s) if s.is_real())
+    }
+}
+
+pub fn pivots_strategy() -> impl Strategy<Value = Pivots> {
+    use proptest::prelude::*;
+    pivot_script_strategy().prop_map(Pivots::Script)
+}
+
 pub fn pivot_script_strategy() -> impl Strategy<Value = PivotScript> {
     use proptest::prelude::*;
     let tail = prop_oneof![
